@@ -38,6 +38,27 @@ theorem run_prefix (a b : Nat) (s : PState) :
       | r => r :=
   Impl.runLoopG_add Impl.perform b a 0 s
 
+/-- **Evaluation never stops early.** A run that ends normally having counted fewer steps than the limit
+    ended because the exec stack was empty — the only `break` of `run_to_completion`; in all other normal
+    endings the step limit was reached exactly. -/
+theorem done_early_exec_empty (s s' : PState) (k : Nat) (hr : Impl.run s = .done s' k)
+    (hlt : k < s.maxSteps) : ∃ e, s'.exec.pop = .error e :=
+  Impl.runLoopG_done_early Impl.perform s.maxSteps 0 s s' k hr (by omega)
+
+/-- …so a normal ending is *either* "exec stack empty" *or* "exactly `maxSteps` steps were performed". -/
+theorem done_dichotomy (s s' : PState) (k : Nat) (hr : Impl.run s = .done s' k) :
+    (∃ e, s'.exec.pop = .error e) ∨ k = s.maxSteps := by
+  have hle : k ≤ s.maxSteps := steps_le s k (by rw [hr]; rfl)
+  rcases Nat.lt_or_ge k s.maxSteps with h | h
+  · exact .inl (done_early_exec_empty s s' k hr h)
+  · exact .inr (by omega)
+
+/-- **A finished machine stays finished**: evaluating a state whose exec stack is empty returns that very
+    state after 0 steps (so running a completed evaluation again changes and counts nothing). -/
+theorem run_finished (s : PState) (e : StackErr) (he : s.exec.pop = .error e) :
+    Impl.run s = .done s 0 :=
+  Impl.runLoopG_empty Impl.perform s.maxSteps 0 s e he
+
 theorem run_sizes (s s' : PState) (h : WF s) (hr : (Impl.run s).state? = some s') : SizesOk s' :=
   (run_WF s.maxSteps s s' h hr).sizes
 
@@ -97,6 +118,9 @@ example : (Impl.run (start 4 100 100 grower)).err? = some (.stack .overflow) := 
 /-- the nested program runs to completion: 1 + 1 + 1 -/
 example : ((Impl.run (start 10 10 100 nested)).state?.map (·.int.tops)) = some [3] ∧
     (Impl.run (start 10 10 100 nested)).err? = none := by decide
+/-- the nested program ends early (8 steps of 100) with the exec stack empty: `done_early_exec_empty` bites -/
+example : (Impl.run (start 10 10 100 nested)).steps? = some 8 ∧
+    ((Impl.run (start 10 10 100 nested)).state?.map (·.exec.size)) = some 0 := by decide
 /-- step limit 0: nothing happens -/
 example : (Impl.run (start 10 10 0 nested)).steps? = some 0 := by decide
 /-- the starting states are well-formed -/
